@@ -36,7 +36,8 @@ def _parse(s):
 
 
 def _mask(model, impl):
-    """the model prints ? for contents the implementation leaves unspecified (a column whose decoding failed half way)"""
+    """the model prints ? where an observable is not modelled (Row(i) of a ColFixedStr below a wrapper); the implementation's
+    value at that position is not compared"""
     if model == "?":
         return "?"
     if isinstance(model, list) and isinstance(impl, list) and len(model) == len(impl):
@@ -73,7 +74,13 @@ def explore(res, scale=1, seed=None):
         if rc != 0:
             raise C.Infra("harness c18 (%s) failed:\n%s" % (build[0], log[-2000:]))
         rows = C.read_transcript(out)
-        model = C.run_eval("Res", [r[0] for r in rows])
+        # an observation "-" means the implementation's state could not be dumped (or a corrupted count made a decoder
+        # allocate a column too large to print): such cases are judged by the oracle only and not run through the model
+        todo = [i for i, r in enumerate(rows) if r[1] != "-"]
+        evald = C.run_eval("Res", [rows[i][0] for i in todo])
+        model = ["-"] * len(rows)
+        for i, m in zip(todo, evald):
+            model[i] = m
         rows_m = [(c, masked(m, g), o) for (c, g, o), m in zip(rows, model)]
         C.compare_rows(res, rows_m, model, "correspondence(result blocks,%s)" % build[0])
         res.account(rows)
@@ -103,15 +110,22 @@ def explore(res, scale=1, seed=None):
         "AutoResult and Results.Auto(): equal schemas (catalogue columns, revisions on both sides of every feature), one column "
         "against one target for pairs of a pool of ~150 column kinds (every type against every other, parameter-only "
         "differences), permuted/renamed/blank/extra/missing targets, zero-row header blocks with and without targets, "
-        "sequences of 2-3 blocks with changing schemas against the same targets, and altered blocks (cuts, custom-serialization "
-        "flag, byte edits). A case is non-trivial when the implementation produced a value for it (counted per distinct case) "
-        "or a failure class (counted once per case kind and class)")
+        "sequences of 2-3 blocks with changing schemas against the same targets, altered blocks (cuts, custom-serialization "
+        "flag, byte edits), nested adoption (Array / Nullable / LowCardinality / Map, also in each other, around Enum, DateTime, "
+        "DateTime64 leaves; 2-3 blocks differing in leaf parameters only against targets built blank or with other parameters; "
+        "Map sides containing commas), every ordered pair of Tuple / Map types of different arity, and failed-then-well-formed "
+        "block sequences (cut / altered / foreign-schema block, then blocks of the targets' own schema). After a failed bind "
+        "every target is compared with the model as it is - the failing one with its half-decoded column - together with "
+        "Rows() and whether Row(i) returns for every i below it. A case is non-trivial when the implementation produced a "
+        "value for it (counted per distinct case) or a failure class (counted once per case kind and class)")
     res.assumptions = [
         "time.LoadLocation is an oracle (Section variable zone); the harness tabulates it per case on every substring a column's Infer could pass to it",
         "strings.ToLower is uninterpreted (ColInterval.Infer's outcome does not depend on it, C19)",
-        "the column decoders are those of model/Columns.v (C01); a target whose DecodeColumn failed half way holds unspecified contents (printed ? and not compared)",
+        "the column decoders are those of model/Columns.v (C01); what a decoder leaves behind when it fails is model/DecPart.v, one case per DecodeColumn of /repo/proto and per build (ColUInt8 has the pure-Go decoder in both builds; a FixedString of size 64/128/256/512 is taken to be the generated array column, any other size ColFixedStr{Size}); hidden state that Reset does not clear (ColLowCardinality.key, slice capacities) is not modelled: the key is printed 0 while the column has no values and no keys, and Row(i) of a ColFixedStr below a wrapper (which slices within capacity) is not compared",
+        "a case in which a corrupted count made a decoder allocate more than 200000 elements is judged by the oracle only (not dumped, not run through the model)",
         "a typed target is identified by its Type() string and element width: ColDateTime / ColDateTime64 / ColInterval are recognised by their names (Alias/Wrap columns are outside the modelled set)",
-        "ColTuple as a target hands the whole Tuple(...) string to every inferable element (mirrored: such tuples reject their own type)",
+        "ColTuple as a target hands the whole Tuple(...) string to every inferable element (mirrored, not repaired: such tuples reject their own type)",
+        "after a failed bind the library leaves a half-decoded Nullable / Array / Map / Point / Tuple / LowCardinality target whose Rows() exceeds what Row(i) can return (Row panics): modelled and compared, stated as failing_target_consistent_refuted, not reported as a violation",
     ]
 
 
